@@ -138,6 +138,7 @@ func c16Smart(c *ctx, fn string, box [4]int, in [][][][2]int, o int) {
 	e := map[string]interface{}{"k": "smart", "fn": fn, "box": box, "in": in, "o": o, "st": 15}
 	setCurrent("smartclip."+fn, e)
 	var out orb.MultiPolygon
+	gnil := 1
 	site := guard(func() {
 		switch fn {
 		case "Ring":
@@ -171,7 +172,13 @@ func c16Smart(c *ctx, fn string, box [4]int, in [][][][2]int, o int) {
 					}
 				}
 			}
-			flat(smartclip.Geometry(b, arg, oo))
+			res := smartclip.Geometry(b, arg, oo)
+			flat(res)
+			// nothing left of a ring / polygon / multipolygon: the generic entry point answers nil like the typed ones (not
+			// a non-nil interface around nothing)
+			if _, isCol := arg.(orb.Collection); !isCol && len(out) == 0 && res != nil {
+				gnil = 0
+			}
 		}
 	})
 	if site != "" {
@@ -184,7 +191,7 @@ func c16Smart(c *ctx, fn string, box [4]int, in [][][][2]int, o int) {
 		return
 	}
 	e["out"] = q
-	e["pstable"] = c16Prev.check(out)
+	e["pstable"] = c16Prev.check(out) * gnil
 	if len(q) > 0 && !eqMP(q, in) {
 		e["nt"] = 1
 	}
